@@ -3,7 +3,7 @@ the oracle (driver) before it is written.  Run by hand; never at check time.
 
 Entries repaired in the library (status "fixed": exprmissing, exprtruth, strcasecmp, numtype,
 nullarg, adddate, concatstr, condkeys, undefvar, filtertruth, mapmissing, missingcmp, minmaxtypes,
-sumbool, arrayliteral, boolarith, letmissing, laxargs) are kept as they are; their rows in W are only
+sumbool, arrayliteral, boolarith, letmissing, laxargs, accbaremissing) are kept as they are; their rows in W are only
 documentation.  The witness of `scalararg` is one on which the model has no answer (the code
 iterates over the characters of a string): its entry is kept as it is too (KEEP)."""
 import datetime as dt
@@ -55,9 +55,9 @@ W = [
      'field - was repaired in the library by f19df5e.)'),
     ('undefvar', 'project', {'$ifNull': ['$$nope', 1]}, {'_id': 0},
      'an undefined variable is treated as missing instead of being rejected'),
-    ('scalararg', 'project', {'$eq': '$a'}, {'_id': 0, 'a': 1},
-     'an operator that takes a fixed number (not one) of arguments, given a bare operand instead '
-     'of a list, iterates over it (KEEP: the model has no answer on this witness)'),
+    ('scalararg', 'project', {'$strcasecmp': 'ab'}, {'_id': 0},
+     '$strcasecmp given a bare operand instead of a list of two iterates over it (KEEP: the '
+     'model has no answer on this witness)'),
     ('boolarith', 'project', {'$add': ['$f', 1]}, {'_id': 0, 'f': True},
      'booleans count as 0/1 in arithmetic and as array indexes'),
     ('adddate', 'project', {'$add': ['$t', 1000]}, {'_id': 0, 't': dt.datetime(2020, 1, 1)},
